@@ -227,7 +227,7 @@ def flush(ctx, report):
 
 
 def rollup_order(ctx, report):
-    fn = ctx.index.get_function(SCC, "SCCReader._roll_up")
+    fn = ctx.index.get_function(SCC, "SCCReader._roll_up", inline=True)
     report.covered(fn)
 
     def cl(n):
@@ -271,17 +271,8 @@ def rollup_order(ctx, report):
 
 
 def final_ends(ctx, report):
-    fx = ctx.index.get_function(SCC, "fix_last_captions_without_ending")
-    report.covered(fx)
-    loops = [n for n in walk_no_nested(fx.node) if isinstance(n, ast.For)]
-    st = [n for n in walk_no_nested(fx.node) if isinstance(n, ast.Assign) and src(n.targets[0]).endswith(".end")]
-    ok = len(loops) == 1 and len(st) == 1 and src(loops[0].iter).startswith("reversed(") \
-        and st[0] in list(walk_no_nested(loops[0])) and \
-        any(isinstance(n, ast.If) and re.fullmatch(r"\w+\.end", src(n.test)) and
-            any(isinstance(b, (ast.Return, ast.Break)) for b in n.body) for n in loops[0].body)
-    report.check(ok, "R-LOOP", fx, "every trailing caption without an end gets one (walk back until a caption has an end)",
-                 {"loop": short(loops[0]) if loops else None, "stores": [short(s) for s in st]}, "4")
-    rd = ctx.index.get_function(SCC, "SCCReader.read")
-    calls = [c for c in walk_no_nested(rd.node) if isinstance(c, ast.Call) and call_name(c) == "fix_last_captions_without_ending"]
-    report.check(len(calls) == 1, "R-MUSTCALL", rd, "read() applies the final-end rule to the returned list",
-                 [short(c) for c in calls], "4")
+    from . import scc_read_fold
+    scc_read_fold.run(ctx, report, {
+        "final": ("R-LOOP", "4", "every trailing caption without an end gets one (walk back until a caption has an end); "
+                                 "read() applies the rule to the list it returns"),
+    })
